@@ -234,7 +234,10 @@ pub fn model_streams(bytes: &[u8], start: usize, id: u16, role: u16) -> StreamMo
             break;
         }
         if r.rtype == wire::BEGIN && r.id != id {
-            replies.push(ModelReply { reply: Reply::End { id: r.id, status: wire::ST_CANT_MPX }, src_off: r.off, src_end: r.end });
+            let b = r.body(bytes);
+            let unknown_role = b.len() == 8 && !role_known(u16::from_be_bytes([b[0], b[1]]));
+            let reply = if unknown_role { Reply::EndMpxOrRole { id: r.id } } else { Reply::End { id: r.id, status: wire::ST_CANT_MPX } };
+            replies.push(ModelReply { reply, src_off: r.off, src_end: r.end });
             continue;
         }
         if (r.rtype == wire::STDIN || r.rtype == wire::DATA) && r.id == id {
